@@ -539,3 +539,42 @@ def install_sha(w):
             props=["C10"],
         )
     )
+
+    install_flatten(w)
+
+
+def install_flatten(w):
+    from sqlglot import exp
+
+    E = exp.Expression
+    T = "exp.DataType.Type"
+    NEW = ["*.parent", "$ghost:$treever"]
+    AL = "arg(expression, 'alias')"
+    EXPL = "arg(expression, 'this')"
+    FL = f"(isinstance(expression, exp.Lateral) and isinstance({EXPL}, exp.Explode) and bool({AL}) and isinstance({AL}, exp.TableAlias))"
+    UN = "arg(result, 'this')"
+    C0 = f"seq_at(node_expressions({UN}), 0)"
+    RAL = "arg(result, 'alias')"
+    COLS = f"arg({RAL}, 'columns')"
+    w.add_contract(
+        Contract(
+            "fakesnow.transforms.flatten",
+            params={"expression": E},
+            # field shape (A-SQLGLOT 1): FLATTEN(input => v) is parsed as Explode(this=<input => v>), a node
+            requires=[f"implies(isinstance(expression, exp.Lateral) and isinstance({EXPL}, exp.Explode), isinstance(arg({EXPL}, 'this'), exp.Expression))"],
+            result=E,
+            modifies=NEW,
+            ensures={
+                # LATERAL FLATTEN(input => v) [alias] unnests exactly v, read as an array of JSON documents (every element once, in order: UNNEST),
+                # under the same alias, with the element column named VALUE (unquoted)
+                "C11.flatten.unnest": f"implies(old({FL}), is_fresh(result) and cls_is(result, exp.Lateral) and cls_is({UN}, exp.Unnest) and seq_len(node_expressions({UN})) == 1 "
+                f"and cls_is({C0}, exp.Cast) and arg({C0}, 'this') is old(arg(arg({EXPL}, 'this'), 'expression')))",
+                "C11.flatten.json_array": f"implies(old({FL}), cls_is(arg({C0}, 'to'), exp.DataType) and arg(arg({C0}, 'to'), 'this') == {T}.ARRAY and seq_len(node_expressions(arg({C0}, 'to'))) == 1 "
+                f"and arg(seq_at(node_expressions(arg({C0}, 'to')), 0), 'this') == {T}.JSON)",
+                "C11.flatten.alias": f"implies(old({FL}), cls_is({RAL}, exp.TableAlias) and arg({RAL}, 'this') is old(arg({AL}, 'this')) and is_list({COLS}) and seq_len({COLS}) == 1 "
+                f"and cls_is(seq_at({COLS}, 0), exp.Identifier) and arg(seq_at({COLS}, 0), 'this') == 'VALUE' and arg(seq_at({COLS}, 0), 'quoted') == False)",
+                "C11.flatten.else_untouched": f"implies(not old({FL}), result is expression)",
+            },
+            props=["C11"],
+        )
+    )
